@@ -29,3 +29,16 @@ contract("uxarray.grid.grid.Grid.__ne__", props=["C20"],
          # abstract mode: anything else the method might consult (dimension sizes, derived tables, caches) is state that two equal
          # grids need not share - an uninterpreted function of the grid object
          options={**_VIEW, "abstract": True, "summaries": ["uxarray.grid.grid.Grid.sizes", "uxarray.grid.grid.Grid.dims"]})
+
+# "stem from the same format": the format a grid stems from is the one named when it was constructed, whatever the dataset handed
+# in carries from an earlier owner (labels in its attrs included) - Grid.__init__ records exactly the constructor argument
+contract("uxarray.grid.grid.Grid.__init__", props=["C20"], variant="format",
+         sizes=["n_node", "n_edge", "n_face"],
+         # the longitude wrap at the end of __init__ is used through its own contract (contracts/lonrange.py), on a dataset of that shape
+         params={"self": "obj('Grid')", "grid_ds": "obj('Dataset', owner='self', vars={'node_lon': \"arr(real, n_node, owner='caller')\", "
+                                                   "'edge_lon': \"arr(real, n_edge, owner='caller')\", 'face_lon': \"arr(real, n_face, owner='caller')\"})", "source_grid_spec": "optional(opaque('str'))", "source_dims_dict": "opaque"},
+         returns="none",
+         ensures=["same(self.source_grid_spec, source_grid_spec)"],
+         raises=[("ValueError", "True", "only_if")],   # a dataset that is not a minimum UGRID grid is refused
+         # the minimum-UGRID validator is a pure predicate of the dataset (summarised as an uninterpreted function of it)
+         options={"abstract": True, "summaries": ["uxarray.io._ugrid._validate_minimum_ugrid"]})
